@@ -17,6 +17,15 @@ CHECKS = {
         note="Trusted: harness/refisa.hpp (written from the simulator listing in docs/PDFs/hexb.pdf). Undefined instructions and "
              "accesses outside the 200000-word memory end a case uncompared.",
         ref="4/C02"),
+    "C04": dict(
+        technique="runtime monitoring: decode-walk of emitted images with the ISA operand rule (exhaustive over 2^32 values in the thorough tier)",
+        engine="asm-decode",
+        text="Exploration, exhaustive in the thorough tier: every 32-bit value is assembled for all 12 immediate-taking mnemonics at "
+             "directive level and for LDAC/BR in both spellings at text level, through the real Lexer/Parser/CodeGen/emitProgramBin "
+             "path, and each emitted chain is decoded with the ISA prefix rule (opcode, delivered value, chain boundaries, padding). "
+             "The quick tier covers all boundary windows, all |v| < 2^20 and ~2e7 strided values.",
+        note="Trusted: the 8-line prefix decoder in harness/h_asm.cpp. Text-level completeness is for two of twelve mnemonics.",
+        ref="4/C04"),
 }
 
 PENDING_REASON = "no check registered yet in this revision of /verif (machinery for it is still being built; see DESIGN.md section 4)"
@@ -47,6 +56,8 @@ def main():
         "engines": [
             {"name": "refisa", "path": "harness/refisa.hpp", "serves_properties": ["C02"],
              "kind_free_text": "executable reference model of the Hex ISA with pre-step classifier and access monitors"},
+            {"name": "asm-decode", "path": "harness/h_asm.cpp", "serves_properties": ["C04"],
+             "kind_free_text": "in-process assembler driver (HEX_VERIF layout hook) with image decode-walk"},
             {"name": "buildcache", "path": "lib/common.py", "serves_properties": sorted(CHECKS),
              "kind_free_text": "content-hash build cache, fork-per-case runner, verdict/evidence/known-finding plumbing"},
         ],
